@@ -45,7 +45,7 @@ UNITS = [
          ],
          body_prefix="broadcast use group_nds, lemma_mapped_one, lemma_mapped_none, lemma_nodes_ptrs;",
          shapes=[("R3", 1)],
-         closures={1: Cl(types=["Pointer<'a, T>"], ret="(o: Vec<Pointer<'a, T>>)",
+         closures={1: Cl(expect="match f(", types=["Pointer<'a, T>"], ret="(o: Vec<Pointer<'a, T>>)",
                          requires=[("pre", "f.requires((data,))")],
                          ensures=[("out", "exists|d: Data<'a, T>| #[trigger] f.ensures((data,), d) && o@ =~= ptrs(d)")])},
          ),
